@@ -10,6 +10,7 @@ import (
 	"verif/checks/c04"
 	"verif/checks/c05"
 	"verif/checks/c06"
+	"verif/checks/c07"
 	"verif/checks/c09"
 	"verif/checks/c10"
 	"verif/checks/c11"
@@ -30,6 +31,7 @@ var checks = map[string]check{
 	"C04": {"exploration", c04.Run},
 	"C05": {"exploration", c05.Run},
 	"C06": {"exploration", c06.Run},
+	"C07": {"exploration", c07.Run},
 	"C09": {"exploration", c09.Run},
 	"C10": {"model_checking", c10.Run},
 	"C11": {"exploration", c11.Run},
